@@ -1,6 +1,6 @@
 (* C07 - Seal then unseal is lossless for every token, key algorithm and codec. *)
 From Coq Require Import String.
-Require Import Base Node Cbor CborProofs Did DidProofs Generated Policy PolicyIpld Envelope Token TokenProofs SealProofs SealedBytes CanonProofs SealBytesProofs.
+Require Import Base Node Cbor CborProofs Did DidProofs Generated Policy PolicyIpld Envelope Token TokenProofs SealProofs SealedBytes CanonProofs SealBytesProofs Args ArgsProofs.
 Local Open Scope N_scope.
 
 (* go-ucan's own mapping: token -> payload node -> token is the identity on everything a constructor
@@ -29,6 +29,11 @@ Theorem C07_invocation_constructor_output_is_sealable : forall iss sub aud cmd a
   no_null_values meta = true -> no_null_values args = true -> inv_constructed t.
 Proof. exact inv_new_constructed. Qed.
 Print Assumptions C07_invocation_constructor_output_is_sealable.
+(* ... and the arguments that the options WithArgument / WithArguments leave behind meet its premises *)
+Theorem C07_arguments_built_by_options_are_sealable : forall os a a', NoDup (map fst a) -> vals_ok a = true ->
+  forallb aopt_ok os = true -> apply_aopts a os = Ok a' -> keys_nodup a' = true /\ vals_ok a' = true.
+Proof. exact options_leave_valid_arguments. Qed.
+Print Assumptions C07_arguments_built_by_options_are_sealable.
 (* through the envelope, for any signature scheme whose signatures verify under the issuer's key *)
 Theorem C07_delegation_seal_unseal : forall verify header_of sign t hdr,
   dlg_constructed t -> header_of (dk_iss t) = Ok hdr -> (forall m, verify (dk_iss t) m (sign m) = true) ->
